@@ -65,7 +65,7 @@ def translate(unit):
     t = cxx2c.Translator(u)
     text = t.run()
     if t.externs:
-        missing = [e for e in t.externs if not re.search(r'\b%s\s*\(' % re.escape(e), u.get('models', '') + u.get('prelude', '') + _included(u))]
+        missing = [e for e in t.externs if not e.startswith('__builtin_') and not re.search(r'\b%s\s*\(' % re.escape(e), u.get('models', '') + u.get('prelude', '') + _included(u))]
         if missing:
             raise cxx2c.Unsupported('callees without model or contract: %s' % ', '.join('%s [%s]' % (m, t.externs[m]) for m in missing))
     return t, text
@@ -73,7 +73,7 @@ def translate(unit):
 
 def _included(u):
     out = ''
-    for m in re.finditer(r'#include "([^"]+)"', u.get('prelude', '') + u.get('models', '')):
+    for m in re.finditer(r'#include "([^"]+)"', u.get('prelude', '') + u.get('models', '') + u.get('after_structs', '') + u.get('after_forward', '')):
         p = os.path.join(ROOT, m.group(1))
         if os.path.exists(p):
             s = open(p).read()
